@@ -1391,6 +1391,8 @@ func Run(u *Universe, h History, dir, mode string, opt Options) Result {
 		return ReplayTraced(u, h, dir, opt.Seed)
 	case "trace-q":
 		return ReplayTracedQueries(u, h, dir, opt.Seed)
+	case "trace-f":
+		return ReplayTracedFaults(u, h, dir, opt.Seed, 3)
 	case "stop-free":
 		return StopFree(u, opt.Tasks, opt.Blocks, opt.Seed, opt.Final, dir)
 	case "gap":
